@@ -477,6 +477,12 @@ func (c *fc) genBuiltin(site ssa.CallInstruction, b *ssa.Builtin) {
 		o := c.site(v, "", v.Type())
 		a.addAddr(res, Loc{o, ""})
 		c.effect(EffAppendInPlace, s, "[*]", site, "append may write into the spare capacity of its first operand")
+		a.byteFlows = append(a.byteFlows, byteFlow{src: c.node(s), dst: res})
+		if len(cc.Args) > 1 {
+			if _, isSl := cc.Args[1].Type().Underlying().(*types.Slice); isSl {
+				a.byteFlows = append(a.byteFlows, byteFlow{src: c.node(cc.Args[1]), dst: res})
+			}
+		}
 		if sl, _ := v.Type().Underlying().(*types.Slice); sl != nil {
 			if lv := a.leaves(sl.Elem()); len(lv) > 0 {
 				t := c.tmp()
@@ -495,6 +501,9 @@ func (c *fc) genBuiltin(site ssa.CallInstruction, b *ssa.Builtin) {
 		}
 		dst, src := cc.Args[0], cc.Args[1]
 		c.effect(EffCopyDst, dst, "[*]", site, "")
+		if _, isSl := src.Type().Underlying().(*types.Slice); isSl {
+			a.byteFlows = append(a.byteFlows, byteFlow{src: c.node(src), dst: c.node(dst)})
+		}
 		if sl, ok := dst.Type().Underlying().(*types.Slice); ok {
 			if lv := a.leaves(sl.Elem()); len(lv) > 0 {
 				if _, isSl := src.Type().Underlying().(*types.Slice); isSl {
